@@ -320,10 +320,190 @@ def sha_layer(rep, tier):
     return agg
 
 
+def hash32_layer(rep, tier):
+    """generateHashFromString / generateHashFromNumbers == the 31-polynomial mod 2^32 (z3 on the recorded DAG), and a solver-found pair of
+    colliding property names as adversarial keys for the order-independence clause"""
+    out = {'obligations': 0, 'proved': 0, 'colliding_keys': None, 'samples': []}
+    harness = os.path.join(VERIF, 'jsdse', 'sha_harness.mjs')
+
+    def dag_terms(spec):
+        r = json.loads(node(harness, os.path.join(RTI, 'hash.mjs'), json.dumps(spec)))
+        if not r.get('ok'):
+            raise Inconclusive('hash32 harness: ' + str(r.get('error')))
+        nodes = r['dag']['nodes']
+        names = [nd[1] for nd in nodes if nd[0] == 'in']
+        in_vars = {n: z3.BitVec(n, 8 if spec['mode'] == 'hash32str' else 32) for n in names}
+        # reuse the sweeper's term builder without cut points (tiny DAGs)
+        R = [None] * len(nodes)
+        for i, nd in enumerate(nodes):
+            op = nd[0]
+            if op == 'in':
+                R[i] = z3.ZeroExt(56, in_vars[nd[1]]) if spec['mode'] == 'hash32str' else z3.SignExt(32, in_vars[nd[1]])
+            elif op == 'const':
+                R[i] = z3.BitVecVal(int(nd[1]), 64)
+            else:
+                a = [R[j] for j in nd[1]]
+                R[i] = {'add': lambda: a[0] + a[1], 'sub': lambda: a[0] - a[1], 'mul': lambda: a[0] * a[1], 'and': lambda: dagz3.i32z(a[0]) & dagz3.i32z(a[1]),
+                        'or': lambda: dagz3.i32z(a[0]) | dagz3.i32z(a[1]), 'xor': lambda: dagz3.i32z(a[0]) ^ dagz3.i32z(a[1]), 'not': lambda: ~dagz3.i32z(a[0]),
+                        'shl': lambda: dagz3.i32z(a[0] << nd[2]), 'shr': lambda: dagz3.i32z(a[0]) >> nd[2], 'ushr': lambda: z3.LShR(dagz3.u32z(a[0]), nd[2]),
+                        'tou8': lambda: z3.ZeroExt(56, z3.Extract(7, 0, a[0])), 'tou32': lambda: dagz3.u32z(a[0])}[op]()
+        return nodes, in_vars, R, r['dag']['outputs']
+    def build_terms(nodes, in_vars, mode, cut=None):
+        """z3 terms of the DAG; `cut(i, term)` may replace the term of node i (compositional proof)"""
+        R = [None] * len(nodes)
+        for i, nd in enumerate(nodes):
+            op = nd[0]
+            if op == 'in':
+                R[i] = z3.ZeroExt(56, in_vars[nd[1]]) if mode == 'hash32str' else z3.SignExt(32, in_vars[nd[1]])
+            elif op == 'const':
+                R[i] = z3.BitVecVal(int(nd[1]), 64)
+            else:
+                a = [R[j] for j in nd[1]]
+                R[i] = {'add': lambda: a[0] + a[1], 'sub': lambda: a[0] - a[1], 'mul': lambda: a[0] * a[1], 'and': lambda: dagz3.i32z(a[0]) & dagz3.i32z(a[1]),
+                        'or': lambda: dagz3.i32z(a[0]) | dagz3.i32z(a[1]), 'xor': lambda: dagz3.i32z(a[0]) ^ dagz3.i32z(a[1]), 'not': lambda: ~dagz3.i32z(a[0]),
+                        'shl': lambda: dagz3.i32z(a[0] << nd[2]), 'shr': lambda: dagz3.i32z(a[0]) >> nd[2], 'ushr': lambda: z3.LShR(dagz3.u32z(a[0]), nd[2]),
+                        'tou8': lambda: z3.ZeroExt(56, z3.Extract(7, 0, a[0])), 'tou32': lambda: dagz3.u32z(a[0])}[op]()
+                if cut is not None:
+                    R[i] = cut(i, nd, R[i])
+        return R
+    for mode in ('hash32str', 'hash32nums'):
+        for n in range(0, 9 if tier == 'quick' else 17):
+            spec = {'mode': mode, 'n': n}
+            nodes, in_vars, _, outs = dag_terms(spec)
+            # reference h_k = h_{k-1} * 31 + c_k (mod 2^32); every `|= 0` of the implementation is a cut point proved equal to the next h_k,
+            # with h_{k-1} a free variable: one small query per character
+            state = {'k': 0, 'prev': z3.BitVecVal(0, 32), 'ok': True, 'cex': None}
+            const0 = [i for i, nd in enumerate(nodes) if nd[0] == 'const' and nd[1] == '0']
+
+            def cut(i, nd, term):
+                if nd[0] == 'or' and any(j in const0 for j in nd[1]) and state['k'] < n:
+                    k = state['k']
+                    c = in_vars[f's0_{k}']
+                    definition = state['prev'] * 31 + (z3.ZeroExt(24, c) if mode == 'hash32str' else c)
+                    sv = z3.Solver()
+                    sv.set('timeout', 60000)
+                    sv.add(z3.Extract(31, 0, term) != definition)
+                    out['obligations'] += 1
+                    r = sv.check()
+                    state['k'] += 1
+                    if r == z3.unsat:
+                        out['proved'] += 1
+                        hk = z3.BitVec(f'h_{k}', 32)
+                        state['prev'] = hk
+                        return z3.SignExt(32, hk)
+                    state['ok'] = False
+                    if r == z3.sat:
+                        state['cex'] = (k, sv.model())
+                    return term
+                return term
+            R = build_terms(nodes, in_vars, mode, cut)
+            o = outs[0]
+            final_ok = ('idx' in o and z3.simplify(z3.Extract(31, 0, R[o['idx']])).eq(state['prev'])) or ('value' in o and n == 0 and o['value'] == 0)
+            if not final_ok and state['ok'] and 'idx' in o:
+                sv = z3.Solver()
+                sv.set('timeout', 60000)
+                sv.add(z3.Extract(31, 0, R[o['idx']]) != state['prev'])
+                final_ok = sv.check() == z3.unsat
+                out['obligations'] += 1
+                out['proved'] += 1 if final_ok else 0
+            if state['ok'] and final_ok and state['k'] == n:
+                if len(out['samples']) < 2 and n:
+                    out['samples'].append({'function': mode, 'length': n, 'obligation': 'per character: ((h << 5) - h + c) | 0 == h * 31 + c (mod 2^32), h free', 'result': 'unsat x %d' % n})
+                continue
+            # not proved step by step: look for a concrete input on which the whole function differs from the polynomial
+            Rm = build_terms(nodes, in_vars, mode)
+            h = z3.BitVecVal(0, 32)
+            for i in range(n):
+                c = in_vars[f's0_{i}']
+                h = h * 31 + (z3.ZeroExt(24, c) if mode == 'hash32str' else c)
+            sv = z3.Solver()
+            sv.set('timeout', 60000)
+            got = z3.Extract(31, 0, Rm[o['idx']]) if 'idx' in o else z3.BitVecVal(o['value'], 32)
+            sv.add(got != h)
+            r = sv.check()
+            if r == z3.sat:
+                m = sv.model()
+                vals = [m.eval(in_vars[f's0_{i}'], model_completion=True).as_long() for i in range(n)]
+                rep.violation(f'c13:hash32:{mode}', f'{mode} differs from the 31-polynomial on {vals}', {'cmd': 'hash32', 'input': {'mode': mode, 'values': vals}})
+            else:
+                rep.note_inconclusive(f'hash32 {mode} n={n}: not proved step by step and no counterexample found ({r})')
+    # adversarial keys: two different 2-character names with the same 32-bit hash, found by z3 on the real function's DAG
+    nodes, in_vars, R, outs = dag_terms({'mode': 'hash32str', 'n': 2, 'copies': 2})
+    s = z3.Solver()
+    for v in in_vars.values():
+        s.add(z3.ULE(65, v), z3.ULE(v, 122), z3.Or(z3.ULE(v, 90), z3.ULE(97, v)))
+    s.add(z3.Extract(31, 0, R[outs[0]['idx']]) == z3.Extract(31, 0, R[outs[1]['idx']]))
+    s.add(z3.Or(in_vars['s0_0'] != in_vars['s1_0'], in_vars['s0_1'] != in_vars['s1_1']))
+    if s.check() == z3.sat:
+        m = s.model()
+        k1 = ''.join(chr(m.eval(in_vars[f's0_{i}'], model_completion=True).as_long()) for i in range(2))
+        k2 = ''.join(chr(m.eval(in_vars[f's1_{i}'], model_completion=True).as_long()) for i in range(2))
+        out['colliding_keys'] = [k1, k2]
+    return out
+
+
+def encoding_layer(rep, tier, keys):
+    """hash256 as an injective encoding: exhaustive small validator trees (concrete runs of the real hash256), grouped by digest; for every group
+    of structurally different trees the jsdse engine decides whether the validators disagree on some value (then the digest is not a fingerprint).
+    Also: hash()/hash256() must not depend on the insertion order of object properties - checked with the solver-found colliding key names."""
+    from checks import valcheck
+    script = os.path.join(VERIF, 'jsdse', 'hash_enum.mjs')
+    out = {'trees': 0, 'collision_groups': 0, 'pairs_decided': 0, 'order_dependent': 0}
+    for kk, orders in ((['a', 'b'], True), (keys, True)):
+        if not kk:
+            continue
+        r = subprocess.run(['node', '--max-old-space-size=8000', script, RT, json.dumps({'depth': 2, 'keys': kk, 'orders': orders})], stdout=subprocess.PIPE, stderr=subprocess.PIPE, text=True, timeout=1200, env=ENV)
+        if r.returncode != 0:
+            raise Inconclusive('hash_enum failed: ' + r.stderr[-500:])
+        d = json.loads(r.stdout)
+        out['trees'] += d['trees']
+        out['collision_groups'] += d['ncollisions']
+        for od in d['orderDependent'][:5]:
+            out['order_dependent'] += 1
+            which = 'hash256' if not od['hash256_equal'] else 'hash'
+            rep.violation(f'c13:{which}:property-order', f'{which}() depends on the insertion order of object properties for keys {kk}: {json.dumps(od["spec"])[:200]} -> {od["hash"]}',
+                          {'cmd': 'hash-order', 'input': od})
+        jobs = []
+        for ci, c in enumerate(d['collisions'][:40 if tier == 'quick' else 200]):
+            a, b = c['specs'][0], c['specs'][1]
+            job = valcheck.make_job(f'coll{ci}', a, {}, 'C13', tier, hostile=False)
+            job['specB'] = b
+            job['keyPool'] = sorted(set(job['keyPool']) | valcheck.spec_keys(b, {}))
+            jobs.append(job)
+        for job in jobs:
+            res = valcheck.run_harness(job, RTI, timeout=600)
+            out['pairs_decided'] += 1
+            if 'harness_error' in res:
+                rep.note_inconclusive('encoding layer: harness failed: ' + res['harness_error'][:200])
+                continue
+            vs = [v for v in res.get('violations', []) if v['prop'] == 'C13']
+            if vs:
+                v = vs[0]
+                rj = dict(job)
+                rj['concrete'] = v.get('concrete')
+                rr = valcheck.run_harness(rj, RT, timeout=120)
+                if [x for x in rr.get('violations', []) if x['prop'] == 'C13']:
+                    rep.violation('c13:hash256:collision:' + '+'.join(sorted(valcheck.spec_features(job['spec'], {}) & {'index-sig', 'optional', 'tuple-rest', 'tuple-closed', 'anyof', 'map', 'set', 'array'})),
+                                  f'two validators with the same hash256 disagree on {v["input"][:120]}: {json.dumps(job["spec"])[:200]} vs {json.dumps(job["specB"])[:200]}', {'cmd': 'val', 'job': rj})
+                else:
+                    rep.note_inconclusive('encoding layer: disagreement did not reproduce on the stripped runtime')
+    return out
+
+
 def main(tier):
     rep = Report(PID, tier)
     build_runtime()
     sha = sha_layer(rep, tier)
+    try:
+        h32 = hash32_layer(rep, tier)
+    except Inconclusive as e:
+        rep.note_inconclusive('hash32 layer: ' + str(e)[:300])
+        h32 = {'obligations': 0, 'proved': 0, 'colliding_keys': None, 'samples': []}
+    try:
+        enc = encoding_layer(rep, tier, h32.get('colliding_keys'))
+    except Inconclusive as e:
+        rep.note_inconclusive('encoding layer: ' + str(e)[:300])
+        enc = {}
     coverage = {
         'explanation': 'The real hash.ts is type-stripped and instrumented (tsx, swc) and executed under Node with symbolic message bytes; the $S runtime '
                        'records the exact-integer expression DAG of the digest (JS number semantics, ToInt32/ToUint32 at bit operators). z3 proves the DAG '
@@ -334,7 +514,7 @@ def main(tier):
                 'every digest nibble proved equal to the reference for all 2^(8n) messages',
         'samples': sha['samples'] or [{'spec': 'none'}],
         'obligations': sha['cut_points_proved'], 'queries': sha['queries'], 'cache_hits': sha['cache_hits'], 'solver_s': sha['solver_s'],
-        'layers': {'sha256': sha},
+        'layers': {'sha256': sha, 'hash32': h32, 'hash256_encoding': enc},
         'functions_encoded': ['Hash256Writer.updateBytes', 'Hash256Writer.processChunk', 'Hash256Writer.digestHex', 'rotateRight', 'updateTag/String/Number/Boolean/Null',
                               'updateUtf8WithLength', 'updateUint32'],
         'bounds': 'messages up to %d bytes; one write and the enumerated two-way (thorough: also three-way) splits around block / padding boundaries; '
